@@ -157,12 +157,18 @@ class Codec:
 
         msg = rawmsg[valid_idx:].decode("latin-1")
 
-        next_msg = msg[5:].find("8=FIX.")
-        if next_msg != -1:
-            # Next fix message added, but incomplete
-            next_msg += 5
+        trailer = msg.find(self.SOH + "10=")
+        trailer_end = msg.find(self.SOH, trailer + 1) if trailer != -1 else -1
+        if trailer_end != -1:
+            # the frame ends with its own CheckSum field, whatever follows it
+            next_msg = trailer_end + 1
         else:
-            next_msg = len(msg)
+            next_msg = msg[5:].find("8=FIX.")
+            if next_msg != -1:
+                # Next fix message added, but incomplete
+                next_msg += 5
+            else:
+                next_msg = len(msg)
 
         encoded_msg = rawmsg[valid_idx : next_msg + valid_idx]
 
